@@ -109,6 +109,18 @@ CHECKS = {
               "cut_off in [0,0.1], scalar and array b: definition, inverse, homogeneity, joint scaling, 2^b and geometric-mean laws."),
         design_ref="DESIGN.md section 4, C13",
         note=LEVEL_NOTE_N + "; joint scaling with alpha = +-2^k"),
+    "C16": dict(
+        engine="TextFormat",
+        technique="TLA+ model of the file (label line, header, value lines) with Save / Load / Resave actions; TLC exhaustive over a grid of signals x loader entry points with real files written and read back in lock-step; TLC trace validation of random round trips",
+        category="model_checking",
+        text=("TextFormat: npts 1..3 x 7 time steps from 1e-4 to 100 s x 6 micro-unit values (all tuples; npts = 3 sampled 1 in 5 in the quick "
+              "tier) x 2 labels x 10 loader entry points (load_values_and_dt, load_signal both types, load_sig and load_asig with m in "
+              "{1, 2, -3} and label loading): RoundTrip and ResaveIdempotent on the model; every file is really written with save_signal, "
+              "loaded through each entry point and re-saved, and the observation (npts, dt to 4 decimals, values to 6 decimals in integer "
+              "micro-units, label, exact class, byte-identical re-save) equals the model. Trace_TextFormat: random floats up to 1e9, dt in "
+              "[1e-4, 100], labels with spaces: tolerance clauses evaluated by TLC."),
+        design_ref="DESIGN.md section 4, C16",
+        note="the exhaustive grid lies on the format's own precision grid; arbitrary floats are sampled; trusted: TLC 1.8, FP.class, TableIO.class, the local file system"),
 }
 
 NOT_YET = {}
